@@ -94,15 +94,12 @@ Fixpoint zipn {A} (cols : list (list A)) : list (list A) :=
 
 (* Result.multi_measurement_histogram(keys, fold_func) *)
 Definition multi_samples (res : result) (keys : list Z) : option (list (list (list Z))) :=
-  match measurements res with
-  | None => None
-  | Some ms =>
-      match mapM (fun k => option_map snd (lookup k ms)) keys with
+  match keys with
+  | [] => Some (repeat [] (repetitions res))       (* no key is looked up: [()] * repetitions *)
+  | _ =>
+      match measurements res with
       | None => None
-      | Some cols => Some (match keys with
-                           | [] => repeat [] (repetitions res)
-                           | _ => zipn cols
-                           end)
+      | Some ms => option_map zipn (mapM (fun k => option_map snd (lookup k ms)) keys)
       end
   end.
 Definition multi_hist {A} (eqb : A -> A -> bool) (res : result) (keys : list Z)
